@@ -11,6 +11,8 @@ Require Import Urcu.Lfht.LfhtKinds.
 Require Import Urcu.Lfht.LfhtRch.
 Require Import Urcu.Lfht.LfhtFind.
 Require Import Urcu.Lfht.LfhtOwner.
+Require Import Urcu.Lfht.LfhtDead.
+Require Import Urcu.Lfht.LfhtExample.
 Import ListNotations.
 
 (* in every run, per node, at most one event is an ownership exchange of a del that returns a word without the owner flag or a successful replacing cmpxchg: exactly one caller obtains the node *)
@@ -34,4 +36,50 @@ Theorem C07_lifecycle_all_schedules :
     Inv2 C isB s -> Inv2 C isB (fst (run hloc hloc_eqb (hprog C) cs s)).
 Proof. exact (@Urcu.Lfht.LfhtStep.lfht_lifecycle_all_schedules). Qed.
 Print Assumptions C07_lifecycle_all_schedules.
+
+(* a node that is inserted and no longer reachable from the head bucket stays unreachable in every later state of every schedule: between already-inserted nodes a step never creates a path (insertion and replace splice a NEW node into an existing edge, garbage collection shortcuts an existing path, flagging keeps the pointer) *)
+Theorem C07_unlinked_stays_unlinked :
+    forall (C : cfg) (isB : N -> bool),
+    (forall i : N, isB (bucket C i) = true) ->
+    forall root : N,
+    isB root = true ->
+    forall (cs : list choice) (s : state hloc (hprog C)) (x : N),
+    Inv2 C isB s -> dead C root s x -> dead C root (fst (run hloc hloc_eqb (hprog C) cs s)) x.
+Proof. exact (@Urcu.Lfht.LfhtDead.unlinked_stays_unlinked). Qed.
+Print Assumptions C07_unlinked_stays_unlinked.
+
+(* ... and a thread that holds no reference (locals of its current operation, iterator) from which the unlinked node can be reached never obtains one and never accesses the node's word again, whatever all threads do: new references are old ones, buckets (reachable from the root), the successor of a referenced node, or the node a successful replace has just linked in *)
+Theorem C07_no_access_after_unlink :
+    forall (C : cfg) (isB : N -> bool),
+    (forall i : N, isB (bucket C i) = true) ->
+    forall root : N,
+    isB root = true ->
+    forall (cs : list choice) (s : state hloc (hprog C)) (t : nat) (x : N),
+    Inv2 C isB s ->
+    R C root s ->
+    dead C root s x ->
+    clean C s t x ->
+    x <> 0%N ->
+    let s' := fst (run hloc hloc_eqb (hprog C) cs s) in
+    dead C root s' x /\
+    clean C s' t x /\ touches (hact (tpc hloc (hprog C) (THr C s' t))) <> Some (HNext x).
+Proof. exact (@Urcu.Lfht.LfhtDead.no_access_after_unlink). Qed.
+Print Assumptions C07_no_access_after_unlink.
+
+(* a thread between operations with no iterator holds no reference: after a grace period (every read-side section that was open at the unlink has ended) this is true of every thread at some instant after the unlink, so by the previous theorem the node may be freed *)
+Theorem C07_thread_between_operations_is_clean :
+    forall (C : cfg) (s : state hloc (hprog C)) (t : nat) (x : N),
+    PCr C s t = H_Idle -> FND C s t = 0%N -> clean C s t x.
+Proof. exact (@Urcu.Lfht.LfhtDead.idle_clean). Qed.
+Print Assumptions C07_thread_between_operations_is_clean.
+
+(* non-vacuity: in the example configuration node 3 is inserted, looked up, deleted and unlinked (18 steps of the deleter); it is then dead, and thread 1 - idle at that instant - never accesses it in any continuation *)
+Theorem C07_no_access_instance :
+    forall cs : list choice,
+    let s1 := fst (run hloc hloc_eqb (hprog C0) (repeat (Step 0) 6 ++ repeat (Step 2) 18) s0) in
+    let s' := fst (run hloc hloc_eqb (hprog C0) cs s1) in
+    dead C0 1 s1 3 /\
+    dead C0 1 s' 3 /\ touches (hact (tpc hloc (hprog C0) (THr C0 s' 1))) <> Some (HNext 3).
+Proof. exact (@Urcu.Lfht.LfhtExample.no_access_instance). Qed.
+Print Assumptions C07_no_access_instance.
 
